@@ -106,6 +106,10 @@ def run(run, tier):
     res.oracle_bad = [x for x in res.oracle_bad if not is_default_alias(x[3])]
     SC.report(run, PID, L.ENTRY, res, 'Model/Simple.v', 'Props/C03.v')
     C.extra_props(run, 'C03', props, ['C03x'])
+    # the jump law inside a weighted candidate set is C16's: a change to _ListDict_ that biases the choice is a failing input here too
+    from . import c16 as _c16
+    import EoN.simulation as _sim
+    _c16.selection_law_part(run, 'C03', _sim, run.rng, 300 if tier == 'quick' else 4000)
     if not props['ok']:
         run.violation('C03/proof', 'Props/C03.v no longer checks: %s' % props['log'][-400:], {'broken': 'coq/Props/C03.v', 'log': props['log']}, no_input=True)
     shapes = {}
@@ -136,6 +140,9 @@ def run(run, tier):
 
 
 def replay(rp):
+    if rp['replay'].get('listdict'):
+        from . import c16
+        return c16.replay(rp)
     EoN = C.import_eon()
     import EoN.simulation as sim
     r = rp['replay']
